@@ -114,7 +114,9 @@ class Encoded(Literal):
                 continue
             if isinstance(x, Object):
                 md = x.__metadata__
-                md.sxtype = ref
+                # Keep the item's own (possibly derived) type.
+                if getattr(md, "sxtype", None) is None:
+                    md.sxtype = ref
                 array.item.append(x)
                 continue
             if isinstance(x, dict):
